@@ -163,3 +163,40 @@ def check_cdist(ctx, qual="droplets.droplet_tracks.DropletTrackList.from_emulsio
                 ctx.decide(ok, "EMPTY", tag, (fi, c), f"`{col}` is known non-empty when the distance matrix is built",
                            f"the points of `{col}` may be empty (a frame without droplets / no alive track) when `{U(c)[:50]}` is evaluated: cdist raises ValueError for an empty point set")
     return n
+
+
+def check_optional_dim(ctx, rule="EMPTY"):
+    """An emulsion without droplets (the frame of a field in which nothing was located) has no layout: its `.dim`, `.dtype`
+    and `.interface_width` are None.  A consistency check of the time-course code that raises when such an attribute differs
+    from an expected value must exempt the layout-less emulsion, otherwise recording a frame without droplets aborts."""
+    import re
+    from ..astutil import canon_guards
+
+    m = ctx.model
+    n = 0
+    for fi in m.all_functions():
+        if fi.cls is None or fi.cls.name != "EmulsionTimeCourse" or fi.name not in ("append", "extend", "__init__"):
+            continue
+        fv = view(m, fi)
+        si = stmt_index(fv)
+        raises = [s_ for s_ in fv.statements() if isinstance(s_, ast.Raise)]
+        bad = None
+        for r in raises:
+            g = canon_guards(si, r, expand=lambda t, at: fv.expand(t, at, allow_mutated=True, stop=tuple(fi.all_params)))
+            for txt, pol in g:
+                mm = re.search(r"\b(\w+)\.(dim|dtype)\b", txt)
+                if not mm or " is None" in txt or "len(" in txt:
+                    continue
+                var, attr = mm.group(1), mm.group(2)
+                if var == "self" or " == " not in txt and " != " not in txt:
+                    continue
+                if pol:
+                    continue  # raising when the attribute *equals* something is not a layout-consistency check
+                exempt = any((t2 == f"{var}.{attr} is None" and not p2) or (t2 == var and p2) or (re.fullmatch(rf"0 < len\({var}\)", t2) and p2) or (t2 == f"len({var}) == 0" and not p2) for t2, p2 in g)
+                if not exempt and bad is None:
+                    bad = (r, txt, var, attr)
+        n += 1
+        ctx.decide(bad is None, rule, f"{fi.qualname}:layout-less", (fi, bad[0]) if bad else fi, "no consistency check raises for an emulsion without droplets (whose dim/dtype are None)",
+                   f"raises when `{bad[1] if bad else ''}` is false without exempting `{bad[2] if bad else ''}.{bad[3] if bad else ''} is None`: an emulsion without droplets has no layout, "
+                   "so a frame in which nothing was located after a populated frame aborts the tracker / from_storage with this error")
+    return n
